@@ -179,7 +179,8 @@ def render(case, rng):
     P.append(f'   "end {len(case["patterns"])} unload": Call "load_unload" {{ \n      ' + ' '.join(f'"{so}"={brk(v)};' for so, v in prev['unload'].items()) + ' }')
     P.append('}')
     L.append('\n'.join(P))
-    L.append('// Patterns reference ' + str(len(case['patterns'])) + ' V statements')
+    if rng.random() < 0.6:      # otherwise the text ends with the closing brace of the pattern block
+        L.append('// Patterns reference ' + str(len(case['patterns'])) + ' V statements')
     return '\n'.join(L) + '\n'
 
 
